@@ -10,7 +10,7 @@ from .common import MachineryError
 _RE_LINE = re.compile(r'^"(FAIL|NOTE)\|(\d+)\|(\d+)\|([^|]+)\|(.*)"$')
 
 TRACE_KEYS = ("tid", "seq", "ev", "T", "T2", "changes", "obj_chain", "attr_chain", "changed", "stale",
-              "prev_totals_ok", "init_totals_ok", "composite")
+              "prev_totals_ok", "init_totals_ok", "composite", "n_update_begin", "n_nonempty_updates", "edit_kind")
 
 
 def write_trace(path, events, keys=TRACE_KEYS):
